@@ -131,6 +131,8 @@ namespace {
             suppr_str += ";";
             suppr_str += suppr.matched ? "1" : "0";
             suppr_str += ";";
+            suppr_str += std::to_string(suppr.hash);
+            suppr_str += ";";
             suppr_str += suppr.extraComment;
             return suppr_str;
         }
@@ -263,7 +265,7 @@ bool ProcessExecutor::handleRead(int rpipe, unsigned int &result, const std::str
         if (!buf.empty()) {
             // TODO: avoid string splitting
             auto parts = splitString(buf, ';');
-            if (parts.size() < 5)
+            if (parts.size() < 6)
             {
                 // TODO: make this non-fatal
                 std::cerr << "#### ThreadExecutor::handleRead(" << filename << ") adding of inline suppression failed - insufficient data" << std::endl;
@@ -274,8 +276,9 @@ bool ProcessExecutor::handleRead(int rpipe, unsigned int &result, const std::str
             suppr.column = strToInt<int>(parts[1]);
             suppr.checked = parts[2] == "1";
             suppr.matched = parts[3] == "1";
-            suppr.extraComment = parts[4];
-            for (std::size_t i = 5; i < parts.size(); i++) {
+            suppr.hash = strToInt<std::size_t>(parts[4]);
+            suppr.extraComment = parts[5];
+            for (std::size_t i = 6; i < parts.size(); i++) {
                 suppr.extraComment += ";" + parts[i];
             }
             const std::string err = mSuppressions.nomsg.addSuppression(suppr);
